@@ -62,3 +62,30 @@ pub async fn choose(router: &str, deque: &[usize], flags: &[bool], last_worker: 
     }
     format!("res={};{}", res.join("+"), post).replace(' ', "")
 }
+
+/// One real `KeyPersistentRouting::route_message` of a job with key `key` (message id 100) on a pool whose worker records are given as
+/// (wid, queued keys, in-flight keys). Returns "res=<handled|backlog|err>;w<wid>=<queue as key:msgid+..>/<in-flight keys>/<pending table>;.."
+pub async fn route_key_persistent(workers: &[(usize, Vec<u64>, Vec<u64>)], key: u64, pool_size: usize, hint: Option<usize>) -> String {
+    let mut pool = HashMap::new();
+    for (wid, q, c) in workers {
+        let (rec, _got, _r) = wp::record_logging_at(*wid, q, c, false).await;
+        pool.insert(*wid, rec);
+    }
+    let mut r: KeyPersistentRouting<u64, u64> = KeyPersistentRouting::default();
+    let res = match r.route_message(wp::job(key, 100), pool_size, hint, &mut pool) {
+        Ok(RouteResult::Handled) => "handled",
+        Ok(RouteResult::Backlog(_)) => "backlog",
+        Ok(RouteResult::RateLimited(_)) => "ratelimited",
+        Err(_) => "err",
+    };
+    let mut out = vec![format!("res={res}")];
+    let mut wids: Vec<usize> = pool.keys().copied().collect();
+    wids.sort();
+    for w in wids {
+        out.push(format!("w{}={}", w, wp::books_of(&pool[&w])));
+    }
+    for (_, w) in pool.drain() {
+        w.actor.stop(None);
+    }
+    out.join(";")
+}
